@@ -6,10 +6,10 @@
 (* operator Apply gives the next state; every logged facet is compared     *)
 (* with what the specification allows in that state.                       *)
 (*                                                                         *)
-(* Scenarios are separated by "reset" lines.  A scenario that has shown a  *)
-(* mismatch is poisoned (its remaining lines are consumed without          *)
-(* comparison), so that one defect gives one report and the rest of the    *)
-(* file is still checked.  Mismatch records are appended to MisFile; the   *)
+(* Scenarios are separated by "reset" lines.  A scenario whose state has    *)
+(* been seen to differ from the model's is poisoned (its remaining lines   *)
+(* are consumed without comparison), so that one defect gives one report   *)
+(* and the rest of the file is still checked.  Mismatch records are appended to MisFile; the   *)
 (* state carries only a counter (no growing value in the state).           *)
 (***************************************************************************)
 EXTENDS TabularRender, Json, CSV
@@ -61,6 +61,12 @@ Explain(f, s, ns, ev) ==
     [] f = "res.cblog" -> [obs |-> ev.obs.res.cblog, hint |-> ExplainCbLog(s, SlotsOfAll(s, ev.op), ev.obs.res.cblog)]
     [] OTHER -> [obs |-> ev.obs.res, hint |-> ExplainMore(s, ns, ev.op, f, ev.obs.res)]
 
+\* Facets that project the model's STATE: when one of them disagrees, the library's state has left the
+\* model's, and nothing later in that scenario can be judged (the scenario is poisoned).  All other facets
+\* only look at an output of the call; a disagreement there is recorded and the scenario goes on (so that,
+\* say, a structurally wrong render does not hide a later render that differs from its first time).
+StateFacets == {"grid", "drows", "text", "errs", "props", "res.cblog", "res.panic", "obspanic"}
+
 Init == /\ st = InitState /\ l = 1 /\ scen = "" /\ poisoned = FALSE /\ nmis = 0
 
 Done(n) == CSVWrite("%1$s", <<ToJson([done |-> TRUE, lines |-> Len(Trace), mismatches |-> n])>>, MisFile)
@@ -85,7 +91,7 @@ Next ==
               bad == IF "obs" \in DOMAIN ev THEN BadFacets(st, ns, ev) ELSE {}
           IN /\ st' = ns
              /\ scen' = scen
-             /\ poisoned' = (bad # {})
+             /\ poisoned' = (bad \cap StateFacets # {})
              /\ nmis' = IF bad = {} THEN nmis ELSE nmis + 1
              /\ \A f \in bad :
                   CSVWrite("%1$s", <<ToJson([scen |-> scen, line |-> l, facet |-> f, op |-> ev.op.op,
